@@ -25,7 +25,7 @@ RULE = ("Hypothesis document specs (generator of C01 plus YAML/JSON look-alike s
         "odML 1.1 layout; a structure produced by an independent emitter (other key order, flow style, native "
         "or text dates) loads to the document it describes; JSON-loaded == YAML-loaded == XML-loaded up to "
         "XML's trimming. Non-trivial as C01 or the document contains a look-alike string / falsy attribute")
-ASSUMPTIONS = ["uncertainty is compared by numeric value", "n-tuple members are free of ',', ';', '(' and ')'"]
+ASSUMPTIONS = ["uncertainty is compared by numeric value", "n-tuple members are free of ';', '(' and ')'"]
 
 ENTRIES = ["string", "file", "saveload", "dict_strict", "dict_lenient"]
 
